@@ -84,16 +84,13 @@ def showRow (r : RowResult Rat) : SExp :=
          list (r.rules.map (fun b => list (b.map (fun o => list [ofX o.degree, ofBool o.triggered])))),
          list (r.raw.map (fun v => match v with | some x => ofX x | none => atom "disabled")) ]
 
-def setInputs (e : EngineD Rat) (row : List (X Rat)) : EngineD Rat :=
-  { e with inputs := (e.inputs.zip row).map (fun (iv, v) => iv.setValue v) }
-
 /-- `(process engine ((v …) …))`: every row processed from a cleared engine, values through the cascade row by row
     AND (second list) with one commit on the whole batch of raw values; output per row: model observations -/
 def engine : List SExp → Option SExp
   | [atom "process", e, list rows] => do
       let e ← engineD e
       let rows ← rows.mapM asXs
-      let results := rows.map (fun row => processRow Fn.rat (setInputs e row))
+      let results := batchRows Fn.rat e rows
       -- row-by-row cascade
       let st0 : List (Op.OutState Rat) := e.outputs.map (fun ov => { value := [Op.setter (cascadeCfg ov) .nan], previous := .nan })
       let step (acc : List (Op.OutState Rat) × List SExp) (r : Option (RowResult Rat)) : List (Op.OutState Rat) × List SExp :=
@@ -111,8 +108,7 @@ def engine : List SExp → Option SExp
           let raws := results.filterMap id
           list ((e.outputs.zipIdx.zip st0).map (fun ((ov, i), s) =>
             if ov.enabled then
-              let col := raws.filterMap (fun rr => (rr.raw.getD i none))
-              ofXs (Op.commit (cascadeCfg ov) col s).value
+              ofXs (batchValues ov (rawColumn raws i) s)
             else atom "disabled"))
         else atom "error"
       pure (list [list outs, batch])
